@@ -31,6 +31,7 @@ def c01(ctx):
                 "schemas, two levels) x every document of DocsCore, each in 3 spellings; a case is non-trivial when "
                 "its allowed set is not {ok null} and the expression has >= 2 nodes; distinct by (source text, document)")
     eval_family(ctx, "C01", {Q: (12, 8009), T: (1, 211)})
+    gen_text(ctx, "nums", 0, 1, cats=EVAL_CATS, contract=False)      # number spellings (leading zeros, 08, -0) as indices / slice bounds / literals
     C.trace_api(ctx, {"outcome", "compile-rejected"}, n=600 if ctx.tier == Q else 6000)
     ctx.exhaustive = False
 
@@ -97,9 +98,9 @@ def gen_parse(ctx, mode, family, maxlen, strides, shards=None, cats=PARSE_CATS):
     ctx.bounds["%s/%s/%d" % (mode, family, maxlen)] = {"stride": stride, "stride3": stride3}
 
 
-def mc_parse(ctx, maxlen, dev="{}", used1=True, negative=False, name=None):
-    C.model_check(ctx, "MC_Parse", {"Dev": dev, "MaxLen": maxlen, "UseD1": used1}, invariants=["Agree", "NoPanic", "ErrIdx"],
-                  spec="Spec", name=name or "MC_Parse_%d" % maxlen, workers=C.NCPU, timeout=3000, negative=negative)
+def mc_parse(ctx, maxlen, dev="{}", used1=True, negative=False, name=None, deep=False):
+    C.model_check(ctx, "MC_Parse", {"Dev": dev, "MaxLen": maxlen, "UseD1": used1, "Deep": deep}, invariants=["Agree", "NoPanic", "ErrIdx"],
+                  spec="Spec", name=name or "MC_Parse_%s%d" % ("deep_" if deep else "", maxlen), workers=C.NCPU, timeout=3000, negative=negative)
 
 
 def mc_parserm(ctx, maxlen, live=True):
@@ -135,8 +136,11 @@ def c04(ctx):
     for dev in ["ArgsNoComma", "HashNoComma", "LaxSlice", "NudSwallowsBracketError", "VPDot40"] + ([] if quick else ["AnyCallee"]):
         C.model_check(ctx, "MC_ParseNeg", {"Dev": '{"%s"}' % dev}, invariants=["Holds", "VPTree"], spec="Spec",
                       name="MC_ParseNeg_" + dev, workers=2, negative=True)
+    mc_parse(ctx, 6 if quick else 7, deep=True)      # longer strings over the nesting tokens ( ) id "id" , @
     gen_parse(ctx, "strings", "C01", 3, (1, 1))
     gen_parse(ctx, "strings", "C01", 4, (8, 1) if quick else (1, 1))
+    gen_parse(ctx, "deep", "C01", 6 if quick else 7, (1, 1))
+    gen_text(ctx, "nums", 0, 1, cats=PARSE_CATS, contract=False)     # every spelling of a number is grammatical: [010], [08], [-0], [::09]
     if not quick:
         gen_parse(ctx, "strings", "C01", 5, (97, 1))
     gen_parse(ctx, "mutants", "C02", 0, (150, 1) if quick else (7, 1))
@@ -444,6 +448,7 @@ def c08(ctx):
         C.apalache(ctx, "SliceSat", "WrongSaturation", negative=True)
     eval_family(ctx, "C08", {Q: (5, 1), T: (1, 1)})
     eval_family(ctx, "C08i", {Q: (1, 1), T: (1, 1)})
+    gen_text(ctx, "nums", 0, 1, cats=EVAL_CATS, contract=False)      # slice bounds and indices spelled with leading zeros are decimal
     ctx.exhaustive = ctx.tier == T
 
 
@@ -492,7 +497,7 @@ def c16(ctx):
                 "hex floats, empty projections/slices/keys/values/merge/map) plus the JSON-closure walk on every successful result of the "
                 "C01, C02 and C09 families; non-trivial: the result contains a number, an array or an object")
     eval_family(ctx, "C16", {Q: (1, 1), T: (1, 1)}, cats=EVAL_CATS + ("nonjson",))
-    eval_family(ctx, "C09", {Q: (11, 1), T: (2, 1)}, cats=("nonjson",), mc=False)
+    eval_family(ctx, "C09", {Q: (1, 1), T: (1, 1)}, cats=("nonjson",), mc=False)
     eval_family(ctx, "C02", {Q: (23, 1), T: (3, 1)}, cats=("nonjson",), mc=False)
     eval_family(ctx, "C01", {Q: (37, 100000), T: (5, 1001)}, cats=("nonjson",), mc=False)
     ctx.exhaustive = False
